@@ -329,8 +329,14 @@ def check_pixel_guard(ctx, u, methods):
                     brd = x['referencedDecl']
             vd = u.by_id.get(brd['id']) if brd else None
             idx_def = nf(kids(vd)[-1]) if vd is not None and kids(vd) else None
-            want_def = '((%s + (this.width * %s)) * (this.has_alpha ? 4 : 3))' % (px['name'], py['name'])
-            d_ok = idx_def in _perms_index(px['name'], py['name']) and not _reassigned_after(f, vd['id'], vd)
+            # the index (and the coordinate test) may come from a helper: use its guard facts and
+            # its returned expression with the parameters replaced by the caller's arguments
+            hfacts, hexpr = _index_helper(vd, u) if vd is not None and kids(vd) else (None, None)
+            if hexpr is not None:
+                idx_def = hexpr
+                have = have | hfacts
+                g = holds_(px['name'], ('>=',), '0') and holds_(py['name'], ('>=',), '0') and holds_(px['name'], ('<',), 'this.width') and holds_(py['name'], ('<',), 'this.height')
+            d_ok = vd is not None and idx_def is not None and renorm(idx_def) in {renorm(w_) for w_ in _perms_index(px['name'], py['name'])} and not _reassigned_after(f, vd['id'], vd)
             # channel offset
             alpha_fact = any((canon(n_) == 'this.has_alpha' and pol) for n_, pol in atoms(path_facts(s)))
             k_ok = k <= 2 or (k == 3 and alpha_fact)
@@ -364,6 +370,37 @@ def check_pixel_guard(ctx, u, methods):
                 ctx.check(gx and gy and shape, R, 'BitmapImage::%s|subscript#%d' % (nm, i), s, 'guarded bit-row access', 'BitmapImage access %s is not dominated by x < width / y < height or has an unexpected index' % ic)
 
 
+def _index_helper(vd, u):
+    """(guard facts, returned expression) of a helper call that initialises vd, in the caller's terms"""
+    import re as _re
+    from guard import subst_locals
+    init = strip(kids(vd)[-1])
+    while init is not None and init.get('kind') in ('ImplicitCastExpr', 'CStyleCastExpr', 'CXXStaticCastExpr', 'ExprWithCleanups') and kids(init):
+        init = strip(kids(init)[0])
+    if init is None or init.get('kind') not in ('CallExpr', 'CXXMemberCallExpr'):
+        return None, None
+    d = callee_decl(init, u)
+    hf = None
+    if d is not None:
+        hf = d if body_of(d) is not None else next((m for m in u.functions if m.get('mangledName') == d.get('mangledName') and body_of(m) is not None), None)
+    if hf is None or '/usr/' in (hf.get('_file') or ''):
+        return None, None
+    rets = [r for r in walk(body_of(hf)) if r.get('kind') == 'ReturnStmt' and kids(r)]
+    if len(rets) != 1:
+        return None, None
+    amap = {}
+    for p_, a_ in zip(params_of(hf), call_args(init)):
+        amap[p_.get('name')] = nf(a_)
+
+    def tr(sx):
+        sx = subst_locals(sx, rets[0])
+        for nm, e in amap.items():
+            sx = _re.sub(r'(?<![\\w.>])%s(?![\\w(])' % _re.escape(nm), e, sx)
+        return sx
+    facts = {(tr(a), op, tr(b)) for a, op, b, _, _ in relations(rets[0])}
+    return facts, tr(nf(kids(rets[0])[0]))
+
+
 def _perms_index(x, y):
     inner = '(' + ' * '.join(sorted(['this.width', y])) + ')'
     summ = '(' + ' + '.join(sorted([x, inner])) + ')'
@@ -393,7 +430,7 @@ def check_no_escape(ctx, u, methods):
     # direct pixel access does throw out_of_range (the other half of the clause)
     for f in methods:
         if f.get('name') in ('read_pixel', 'write_pixel') and len(params_of(f)) == 6:
-            thr = [t for t in walk(body_of(f)) if t.get('kind') == 'CXXThrowExpr' and norm_type(dtype(kids(t)[0])) == 'std::out_of_range']
+            thr = [t for t in walk_deep(body_of(f), u) if t.get('kind') == 'CXXThrowExpr' and norm_type(dtype(kids(t)[0])) == 'std::out_of_range']
             ctx.check(len(thr) >= 1, R, sig(f).split('(')[0] + ('#r' if f.get('name') == 'read_pixel' else '#w') + '|throws-out_of_range', f, 'outside coordinates throw out_of_range', 'direct pixel access no longer throws out_of_range')
 
 
@@ -433,7 +470,40 @@ def check_clamp(ctx, u, methods):
         head, tail = sorted(body[:-1]), body[-1:]
         return nf(cond, lf) + ' => ' + ' ; '.join(head + tail)
     xs, ys, order = [], [], []
-    for s in ifs:
+    # alternative shape: one per-axis routine called once for each axis
+    axis_calls = [strip(s_) for s_ in stmts if strip(s_).get('kind') == 'CallExpr' and callee_decl(strip(s_), u) is not None and body_of(callee_decl(strip(s_), u)) is not None]
+    if len(axis_calls) == 2 and callee_decl(axis_calls[0], u) is callee_decl(axis_calls[1], u):
+        H = callee_decl(axis_calls[0], u)
+        hp = [p_['name'] for p_ in params_of(H)]
+        a0 = [nf(a_) for a_ in call_args(axis_calls[0])]
+        a1 = [nf(a_) for a_ in call_args(axis_calls[1])]
+        role = {}
+        for nm_, ax, ay in zip(hp, a0, a1):
+            pair = (ax, ay)
+            r_ = {('dest.get_width()', 'dest.get_height()'): 'dest.dim', ('source.get_width()', 'source.get_height()'): 'source.dim', ('x', 'y'): 'A', ('w', 'h'): 'W', ('sx', 'sy'): 'SA'}.get(pair)
+            if r_ is None:
+                r_ = {('dest.get_height()', 'dest.get_width()'): 'dest.dim', ('source.get_height()', 'source.get_width()'): 'source.dim', ('y', 'x'): 'A', ('h', 'w'): 'W', ('sy', 'sx'): 'SA'}.get(pair)
+            role[nm_] = r_
+        ctx.check(None not in role.values() and sorted(role.values()) == ['A', 'SA', 'W', 'dest.dim', 'source.dim'], R, 'axis-routine|arguments', axis_calls[0], 'the per-axis routine is applied to (width, x, w, sx) and to (height, y, h, sy)',
+                  'the per-axis clipping routine is not called with corresponding horizontal and vertical arguments: %s / %s' % (a0, a1))
+        check_no_goto(H)
+        ctx.fn(H.get('name'))
+        mp_ = {}
+        for nm_, r_ in role.items():
+            mp_[('*' + nm_) if r_ in ('A', 'W', 'SA') else nm_] = r_
+        lf_ = lambda t: mp_.get(t)
+        for s in [s_ for s_ in stmts_of(body_of(H)) if s_.get('kind') == 'IfStmt']:
+            cond, then, els = cs(s)
+            body_ = [nf(t, lf_) for t in then]
+            txt = nf(cond, lf_) + ' => ' + ' ; '.join(sorted(body_[:-1]) + body_[-1:])
+            xs.append(txt)
+            ys.append(txt)
+            order.append(txt)
+        for x in walk(body_of(H)):
+            if x.get('kind') == 'BinaryOperator' and x.get('opcode') in ('<', '>', '<=', '>=') and any((dtype(o) or '').startswith('unsigned') for o in x['inner']):
+                ctx.bad(R, 'signed-comparisons|axis-routine', x, 'a clipping comparison in the per-axis routine converts a signed coordinate to unsigned (%s)' % src_text(x, 80))
+        ifs = [s_ for s_ in ifs]
+    for s in (ifs if not xs else []):
         cond, then, els = cs(s)
         names = {(ref_decl(y) or {}).get('name') for y in walk(s)}
         if 'w' in names and 'h' in names:
@@ -481,6 +551,9 @@ def check_clamp(ctx, u, methods):
             for s in gi:
                 cond, then, els = cs(s)
                 txt = canon(cond)
+                cn = {(ref_decl(y_) or {}).get('name') for y_ in walk(cond)}
+                if cn & {'x', 'w'} and cn & {'y', 'h'}:
+                    continue     # a test over both axes (empty-area early exit), not a per-axis clipping step
                 if 'a' == canon(cond).strip('()').split(' ')[-1] or ' a)' in txt or '(a ' in txt or '== a' in txt or 'a ==' in txt:
                     continue
                 rx = _canon_renamed(cond, [('get_width', 'get_dim')]) + ' => ' + ' ; '.join(_canon_renamed(t, [('get_width', 'get_dim')]) for t in then)
